@@ -31,7 +31,7 @@ SIDES = [4, 5, 7, 8, 9, 10, 12, 13, 16, 20, 24]
 def cells(tier, seed):
     rnd = core.rng_for(seed, PROP, tier)
     out = []
-    n = 200 if tier == 'quick' else 8000
+    n = 200 if tier == 'quick' else 60000
     for i in range(n):
         order = 1 if i % 2 == 0 else 2
         b = rnd.choice(c08.BIORTS)
